@@ -59,6 +59,10 @@ type Forged struct {
 	// KnownIdx: the receiving store already holds a block index (of an honest block of full-width rows, from an
 	// earlier fetch) and the forged table names that one as the index of its block
 	KnownIdx bool `json:"known_idx,omitempty"`
+	// OtherIdx (with KnownIdx): every row has the declared width, the key is in range, the row count is right - the
+	// only lie is that the block index named (held by the receiver) is the honest index of another block of the
+	// same shape: the table would be stored with an index that maps none of its rows
+	OtherIdx bool `json:"other_idx,omitempty"`
 	// Variant "" = contradicting block/table/commit; "commit-time": a commit whose 16-byte time field holds TimeField
 	// instead of "<10 digits> <zone>"; "long-header": an object header of HeaderCont continuation bytes (HeaderByte each)
 	Variant    string `json:"variant,omitempty"`
@@ -109,6 +113,12 @@ func init() {
 					f.RowsDecl = Pick(r, []int{0, 1, nrows + 1, 255, 256})
 				}
 				f.KnownIdx = r.Chance(0.35)
+				if ro := r.Sub("otheridx"); ro.Chance(0.2) {
+					f.KnownIdx, f.OtherIdx, f.RowsDecl, f.PK = true, true, -1, []int{ro.Intn(f.Cols)}
+					for i := range f.Widths {
+						f.Widths[i] = f.Cols
+					}
+				}
 				switch r.Intn(7) {
 				case 5:
 					// a pkt-line whose 4-character length is not four hex digits but parses as a number
@@ -649,6 +659,9 @@ func execC17Forged(p *C17Plan, res *Result) {
 			honest[i] = make([]string, max(f.Cols, 1))
 			for j := range honest[i] {
 				honest[i][j] = fmt.Sprintf("%03d-%d", i, j)
+				if f.OtherIdx {
+					honest[i][j] = fmt.Sprintf("%03d+%d", i, j)
+				}
 			}
 		}
 		var hpk []uint32
@@ -705,6 +718,15 @@ func execC17Forged(p *C17Plan, res *Result) {
 	if c, d := CheckRepoInvariants(dst.Snapshot(), map[string][]byte{}); c != "" {
 		res.Violate("rejected-object-left:"+c, "after Receive of the forged packfile returned %v: %s", rerr, d)
 		return
+	}
+	if f.OtherIdx {
+		res.fault("forged_table_names_the_index_of_another_block", 1)
+		if _, ok := dst.Raw("tbl/" + string(tblSum)); ok {
+			if c, d := CheckTable(dst, tblSum); c != "" {
+				res.Violate("forged-table-stored:"+c, "Receive (err %v) stored a table whose block index belongs to another block: %s", rerr, d)
+				return
+			}
+		}
 	}
 	if rerr != nil {
 		res.probe("forged_packfile_rejected", 1)
